@@ -276,13 +276,42 @@ def other_shard(args):
     return part.done()
 
 
+def optimised_child(tier):
+    """Runs inside ``python -O``: the distinct base of every national country x every check value."""
+    part = par.Part()
+    for country in sorted(k for k in nat.COUNTRIES if k in reg.countries()):
+        c = reg.countries()[country]
+        cl = bases.classes_of(c)
+        cps = check_positions(country)
+        body = bases.bban(c, "distinct")
+        for vals in itertools.product(*[reg.CLASS_CHARS[cl[p]] for p in cps]):
+            chars = list(body)
+            for p, v in zip(cps, vals):
+                chars[p] = v
+            b = "".join(chars)
+            part.count(("-O", country, b))
+            part["evals"] += 2
+            status, sig, exp, obs = judge(country, b)
+            if status == "bad":
+                part.violation(sig + " [python -O]", {"kind": "c06", "country": country, "bban": b,
+                                                      "interpreter": "-O"}, exp, obs)
+    part.stat("optimised_interpreter_runs")
+    return part.done()
+
+
 def shard(args):
+    if args[0] == "python -O":
+        return par.in_interpreter(["-O"], "mc.props.c06", "optimised_child", args[1])
     if args[0] == "bank":
         return bank_shard(args)
     return nat_shard(args[1:]) if args[0] == "nat" else other_shard(args[1:])
 
 
 def replay(case: dict) -> dict:
+    if case.get("interpreter") == "-O":
+        part = par.in_interpreter(["-O"], "mc.props.c06", "optimised_child", "quick")
+        hit = [v for v in part["violations"] if v["case"]["bban"] == case["bban"]]
+        return {"ok": not hit, "observed": hit[0]["observed"] if hit else None, "interpreter": "python -O"}
     if case["kind"] == "c06seq":
         ptext = bases.iban_text(case["partner"], case["bban"])
         lib.iban_parse(ptext, True)
@@ -313,7 +342,7 @@ def main(tier: str) -> int:
     table = reg.countries()
     natc = sorted(k for k in nat.COUNTRIES if k in table)
     shards = [("nat", c, tier, f) for c in natc for f in accepted_fillers(c, tier)] + [("other", c, tier) for c in sorted(table)]
-    shards += [("bank", c, tier) for c in natc]
+    shards += [("bank", c, tier) for c in natc] + [("python -O", tier)]
     par.run_shards(run, shard, shards)
     run.extra.update({"national_countries": natc,
                       "missing_from_table": sorted(nat.COUNTRIES - set(table)),
